@@ -79,7 +79,7 @@ Replay(i, o)       == [k |-> "replay", idx |-> i, of |-> o]
 Wire(q)            == IF q.k = "replay" THEN q.of ELSE q
 \* envelopes whose repetition means the same call again (no per-call fresh parameter such as a new
 \* account label, no keychain-mask token that a re-opened wallet would reject)
-ReplaySafe == {"tld", "close", "open", "open_badpw", "init", "init_bad", "accounts", "mnemonic", "create_wallet", "unknown"}
+ReplaySafe == {"tld", "close", "open", "open_badpw", "init", "init_bad", "mnemonic", "create_wallet", "unknown"}
 Replayable(o) == o.k = "enc" /\ o.tamper = "none" /\ o.outer = "ok" /\ o.inner.k = "plain" /\ o.inner.m \in ReplaySafe
 
 \* alterations of a sealed envelope (harness/src/bin/replay_gate/client.rs: envelope)
@@ -126,8 +126,10 @@ AuthClass(q) ==
 \*       ngen   number of keys the client has derived so far
 \*       open   the LC provider holds an open backend (volatile)
 \*       active parent key id of the open backend: "a0" default, "a1" the second account, "" closed
-\*       nacct  accounts created so far through create_account_path (store content)]
-InitState(open0) == [sess |-> 0, ngen |-> 0, open |-> open0, active |-> IF open0 THEN "a0" ELSE "", nacct |-> 0]
+\*       nacct  accounts created so far through create_account_path (store content)
+\*       fg     running_foreign: the listener also serves the foreign API and therefore keeps the
+\*              keychain mask of the open wallet in the handler (constant along a history)]
+InitState(open0, fg) == [sess |-> 0, ngen |-> 0, open |-> open0, active |-> IF open0 THEN "a0" ELSE "", nacct |-> 0, fg |-> fg]
 
 \* ----------------------------------------------------------- owner methods
 \* Exec(st, m) = what Owner does for method m when the JSON-RPC layer dispatches it:
@@ -220,6 +222,8 @@ Dispatch(st, v) ==
 
 \* ------------------------------------------------------------ the handler
 \* val["method"] of the top-level JSON value (Null for arrays and scalars)
+\* is_open_wallet(val): the value given to the dispatcher is ONE call of open_wallet
+IsOpenVal(q) == q.k = "plain" /\ q.m \in {"open", "open_badpw"}
 IsInitVal(q) == \/ q.k = "plain" /\ q.m \in InitMethods
                 \/ q.k = "enc" /\ q.outer = "init"
                 \/ q.k = "raw" /\ q.what = "dup_init_last"
@@ -248,37 +252,42 @@ GateErr(code) == Resp("gate_err", code, 0, "", <<>>, {}, {}, 0)
 PlainCls(res) == CASE res = "ok" -> "plain_ok" [] res = "err" -> "plain_err" [] OTHER -> "rpc_err"
 
 \* after handle_request (controller.rs:626-660); `was` = the request arrived encrypted,
-\* `initv` = the value given to the dispatcher has method init_secure_api
-Reply(st, d, was, initv) ==
+\* `initv` / `openv` = the value given to the dispatcher has method init_secure_api / open_wallet.
+\* mtouch: update_mask (controller.rs:630) stored the token of the reply in handler.keychain_mask -
+\* only for a single open_wallet call with a reply (Dev_BatchOpenNoMask: not inside a batch, not as
+\* a notification) and only when the foreign API shares the listener.
+Reply(st, d, was, initv, openv) ==
   LET \* the client completes the key agreement for every public key it can read
       st1 == [d.st EXCEPT !.ngen = @ + d.npub]
       \* update_owner_api_shared_key: only for a single reply with result.Ok a string; the key
       \* installed is the one agreed in this very call = the client's newest key.
       \* Dev_BatchInitNoRotate: an init_secure_api inside a batch or sent as a notification runs
       \* (the client may even derive a key) but the handler keeps its old key.
-      st2 == IF initv /\ d.reply = "one" /\ d.okstr THEN [st1 EXCEPT !.sess = st1.ngen] ELSE st1 IN
+      st2 == IF initv /\ d.reply = "one" /\ d.okstr THEN [st1 EXCEPT !.sess = st1.ngen] ELSE st1
+      mt  == openv /\ st.fg /\ d.reply = "one" /\ d.cls = "ok" IN
   IF d.reply = "none"
-  THEN [st |-> st2, touch |-> d.touch, resp |-> Resp("empty", 0, 0, "", <<>>, {}, {}, 0)]   \* `[]` in clear
+  THEN [st |-> st2, touch |-> d.touch, mtouch |-> FALSE, resp |-> Resp("empty", 0, 0, "", <<>>, {}, {}, 0)]   \* `[]` in clear
   ELSE IF was
   THEN \* encrypt_response under the handler's key BEFORE it is updated (controller.rs:633-652)
-       [st |-> st2, touch |-> d.touch,
+       [st |-> st2, touch |-> d.touch, mtouch |-> mt,
         resp |-> Resp("enc", 0, st.sess, IF d.reply = "many" THEN "batch" ELSE d.cls, d.items, {}, d.data, d.npub)]
-  ELSE [st |-> st2, touch |-> d.touch,
+  ELSE [st |-> st2, touch |-> d.touch, mtouch |-> mt,
         resp |-> Resp(IF d.reply = "many" THEN "plain_batch" ELSE PlainCls(d.cls), 0, 0, "", d.items, d.data, {}, d.npub)]
 
+Refuse(st, resp) == [st |-> st, touch |-> FALSE, mtouch |-> FALSE, resp |-> resp]
 Handle(st, q0) ==
   LET q == Wire(q0) IN
   IF q.k = "raw" /\ q.what \in NotJson
-  THEN [st |-> st, touch |-> FALSE, resp |-> Resp("http_err", 500, 0, "", <<>>, {}, {}, 0)]      \* parse_body fails
+  THEN Refuse(st, Resp("http_err", 500, 0, "", <<>>, {}, {}, 0))              \* parse_body fails
   ELSE IF IsInitVal(q)
-  THEN Reply(st, Dispatch(st, q), FALSE, TRUE)                                 \* controller.rs:605-608: no gate
+  THEN Reply(st, Dispatch(st, q), FALSE, TRUE, FALSE)                          \* controller.rs:605-608: no gate
   ELSE IF st.sess = 0
-  THEN [st |-> st, touch |-> FALSE, resp |-> GateErr(-32001)]                  \* check_encryption_started
+  THEN Refuse(st, GateErr(-32001))                                             \* check_encryption_started
   ELSE IF ~IsEnvelope(q)
-  THEN [st |-> st, touch |-> FALSE, resp |-> GateErr(-32002)]                  \* "Encrypted request format error"
+  THEN Refuse(st, GateErr(-32002))                                             \* "Encrypted request format error"
   ELSE IF ~(q.key = st.sess /\ TamperOpens(q.tamper) /\ InnerParses(q.inner))
-  THEN [st |-> st, touch |-> FALSE, resp |-> GateErr(-32002)]                  \* "Decryption error"
-  ELSE Reply(st, Dispatch(st, q.inner), TRUE, IsInitVal(q.inner))              \* controller.rs:623
+  THEN Refuse(st, GateErr(-32002))                                             \* "Decryption error"
+  ELSE Reply(st, Dispatch(st, q.inner), TRUE, IsInitVal(q.inner), IsOpenVal(q.inner))   \* controller.rs:623-625
 
 \* ---------------------------------------------------------------------------
 \*                              THE PROPERTY
@@ -288,7 +297,7 @@ Handle(st, q0) ==
 \*   q    the request
 \*   r    the response record
 \*   eff  something other than the session key changed: the wallet directory on disk, whether the
-\*        wallet is open, its active account, its top-level directory
+\*        wallet is open, its active account, its top-level directory, the keychain mask kept by the handler
 \*   s1   the handler's session key after the request
 \*   nk   the client's key number derived from this reply (0 none), fresh = it is a new key
 
@@ -308,7 +317,10 @@ NoEffectUnlessAuth(s0, q, eff) == eff => AuthOK(s0, q)
 \* (2) the session key changes only through the key exchange (in clear, or inside an authenticated request)
 KeyChangeOnlyByExchange(s0, q, s1) == (s1 # s0) => (KeyExchange(q) \/ AuthOK(s0, q))
 \* (3) everything that is neither authenticated nor the key exchange is answered with an error
-ErrorUnlessAuth(s0, q, r) == (~AuthOK(s0, q) /\ ~KeyExchange(q)) => r.cls \in ErrClasses
+\*     (an error object in clear, an HTTP error, or - should the code ever choose to - an error encrypted
+\*     under some key; never a result, never `[]`, never a crash of the handler)
+IsError(r) == r.cls \in ErrClasses \/ (r.cls = "enc" /\ r.inner \in {"err", "rpc_err", "gate_err"})
+ErrorUnlessAuth(s0, q, r) == (~AuthOK(s0, q) /\ ~KeyExchange(q)) => IsError(r)
 \* (4) nothing the client can read without a key contains wallet data; a clear-text success is
 \*     only ever the reply to the key exchange
 NoClearData(q, r) == /\ r.leak_raw = {}
